@@ -77,6 +77,8 @@ Judge(t, pl, V) ==
   \* 32-bit safety of ScaleH for the large factors (change of units by 10^3 .. 10^4)
   IF \E h \in V : \E c \in 1..3 : AbsI(h[c]) > 2147483647 \div t.scale.sn THEN "OOD scale-overflow" ELSE
   IF SeqSet(t.scale.verts) # sv THEN "REJECT Scaling" ELSE
+  \* the scaled shape is a closed surface too (corners merged by position), whatever the size of the numbers
+  IF ~ClosedManifold(t.scale.tris, Rep(t.scale.verts)) THEN "REJECT ScaledClosed" ELSE
   "ACCEPT"
 
 (* built from a list of Miller planes and a space group: the facets the object holds (t.facets, read back from it in its own
